@@ -62,6 +62,8 @@ var (
 	hookCtr   uint64
 	hookDelay int64
 	hookMode  int32 // 0 none, 1 delays at sealed
+
+	hookReleases int64 // handover rounds whose writers were released from conn.write.written
 )
 
 // handoverRelease, when set, is closed by the hook at the first conn.write.written.
@@ -73,6 +75,7 @@ func installHook() {
 			// handover rounds: the plaintext M4 is on the wire, the encrypter is not yet activated: release the
 			// other writers now and give them time to arrive
 			if ch := handoverRelease.Swap(nil); ch != nil {
+				atomic.AddInt64(&hookReleases, 1)
 				close(*ch)
 				time.Sleep(2 * time.Millisecond)
 			}
@@ -382,6 +385,11 @@ func main() {
 	fullStack(r, "plain", r.Pick(2, 12))
 	// race detector child (harness A and B)
 	runRace(r)
+	// a tree that has lost a hook point must not pass as "held"
+	r.Count("delays_taken_at_conn.write.sealed", int(atomic.LoadInt64(&hookDelay)))
+	r.Count("writers_released_at_conn.write.written", int(atomic.LoadInt64(&hookReleases)))
+	r.Floor("delays taken at hook point conn.write.sealed", int(atomic.LoadInt64(&hookDelay)), rounds)
+	r.Floor("handover rounds released at hook point conn.write.written", int(atomic.LoadInt64(&hookReleases)), rounds/40)
 	r.Floor("rounds_with_overlapping_writes", int(r.Counter("rounds_with_overlapping_writes")), rounds/2)
 	r.Floor("overlapping_write_pairs", int(r.Counter("overlapping_write_pairs")), 2000)
 	r.Floor("distinct arrival orders", r.DistinctN("arrival_order"), rounds/4)
